@@ -151,6 +151,16 @@ FIXED_FSG_VARIANTS = [
 VARIANT_ALIGN = ["go forward ten(2) meters", "GO forward TEN meters(2)"]
 
 
+def variant_grammars():
+    """every directed variant / case grammar once: [(script lines, kind)]"""
+    out = []
+    for k, txt in enumerate(FIXED_FSG_VARIANTS):
+        out.append((variant_prelude() + ["fsgtext " + hx(txt) + " " + hx(fsg_annotation(txt))], "fsg-variants%d" % k))
+    for k, txt in enumerate(VARIANT_ALIGN):
+        out.append((variant_prelude() + ["align " + hx(txt)], "align-variants%d" % k))
+    return out
+
+
 def variant_prelude():
     return ["addword %s %s 0" % (w.encode().hex(), p.encode().hex()) for w, p in VARIANT_WORDS]
 
@@ -251,7 +261,7 @@ def make_case(rng, ctx, idx, want, opts=None):
     beam = rng.choice(["default", "default", "narrow", "wide"])
     cfg.update(BEAMS[beam])
     cfg.update(opts.get("config", {}))
-    gl, gkind = pick_grammar(rng, ctx, idx)
+    gl, gkind = opts.get("grammar") or pick_grammar(rng, ctx, idx)
     names, weights = zip(*AUDIO_WEIGHTS)
     aud = opts.get("audio") or rng.choices(names, weights)[0]
     mode = opts.get("chunking") or rng.choice(["one", "one", "small", "small", "tiny", "big"])
